@@ -216,6 +216,8 @@ def rule_r2(ctx):
               how="every `return` classified by its guard")
     env: dict[str, frozenset] = {}
     kinds = {"string": 0, "real": 0, "nlink": 0}
+    nl_vars = {s_.targets[0].id for s_ in own_nodes(f.node) if isinstance(s_, ast.Assign) and isinstance(s_.targets[0], ast.Name)
+               and isinstance(s_.value, ast.Attribute) and s_.value.attr == "st_nlink"}
     for n in f.node.body:
         for s in ast.walk(n) if not isinstance(n, ast.If) else [n]:
             if isinstance(s, ast.Assign) and len(s.targets) == 1 and isinstance(s.targets[0], ast.Name):
@@ -246,20 +248,30 @@ def rule_r2(ctx):
                           + ("" if shape_ok else "; test is not of the rejecting form `x != base and not x.startswith(base+sep)`")
                           + " — mixed or un-normalised comparison does not establish containment",
                           how="tag analysis over abspath/normpath/realpath", construct=f"prefix test tags {sorted(subj)} vs {sorted(pref)}")
-        elif "nlink" in norm(test):
-            # nlink from os.stat(<real>).st_nlink ; threshold 1
+        elif nl_vars & {x.id for x in ast.walk(test) if isinstance(x, ast.Name)}:
+            # V bound from os.stat(<real>).st_nlink ; threshold 1
             t = norm(test)
-            ok = t in ("nlink > 1", "nlink >= 2", "1 < nlink", "nlink != 1")
+            v = sorted(nl_vars & {x.id for x in ast.walk(test) if isinstance(x, ast.Name)})[0]
+            ok = False
+            if isinstance(test, ast.Compare) and len(test.ops) == 1:
+                l, op, r = test.left, test.ops[0], test.comparators[0]
+                def is_v(e):
+                    return isinstance(e, ast.Name) and e.id == v
+                def is_c(e, k):
+                    return isinstance(e, ast.Constant) and e.value == k
+                ok = (is_v(l) and isinstance(op, ast.Gt) and is_c(r, 1)) or (is_v(l) and isinstance(op, ast.GtE) and is_c(r, 2)) \
+                    or (is_c(l, 1) and isinstance(op, ast.Lt) and is_v(r)) or (is_v(l) and isinstance(op, ast.NotEq) and is_c(r, 1)) \
+                    or (is_c(l, 2) and isinstance(op, ast.LtE) and is_v(r))
             src_ok = False
-            for s in own_nodes(f.node):
-                if isinstance(s, ast.Assign) and norm(s.targets[0]) == "nlink" and isinstance(s.value, ast.Attribute) and s.value.attr == "st_nlink":
-                    call = s.value.value
+            for s_ in own_nodes(f.node):
+                if isinstance(s_, ast.Assign) and isinstance(s_.targets[0], ast.Name) and s_.targets[0].id == v and isinstance(s_.value, ast.Attribute) and s_.value.attr == "st_nlink":
+                    call = s_.value.value
                     if isinstance(call, ast.Call) and dotted_of(call.func) in ("os.stat", "os.lstat") and call.args:
                         src_ok = "real" in _tags(call.args[0], env)
             kinds["nlink"] += 1 if (ok and src_ok) else 0
-            ctx.check("R2", f"hard-link test {t}", ok and src_ok, f, n,
-                      "hard-link rejection is not `st_nlink > 1` of the fully resolved path",
-                      how="threshold constant and stat target tags", construct=f"nlink test {t}")
+            ctx.check("R2", "hard-link test on st_nlink", ok and src_ok, f, n,
+                      f"hard-link rejection `{t}` is not `st_nlink > 1` of the fully resolved path",
+                      how="threshold constant and stat target tags", construct="nlink test")
     for k, label in (("string", "abspath/normpath prefix rejection"), ("real", "realpath prefix rejection"), ("nlink", "hard-link rejection")):
         ctx.check("R2", f"present: {label}", kinds[k] >= 1, f, f.node,
                   f"_check_path_containment has no {label}", how="count of recognised rejecting tests",
